@@ -74,10 +74,24 @@ func Start(id, level string) *Run {
 			r.Seed = v
 		}
 	}
-	b, err := os.ReadFile(filepath.Join(Root, "known_findings.json"))
-	if err == nil {
-		if err := json.Unmarshal(b, &r.findings); err != nil {
-			Fatalf("known_findings.json: %v", err)
+	// known findings: the committed merged file plus the per-check fragment it is generated from.
+	for _, p := range []string{filepath.Join(Root, "known_findings.json"), filepath.Join(Root, "checks", strings.ToLower(id), "findings.json")} {
+		b, err := os.ReadFile(p)
+		if err != nil {
+			continue
+		}
+		var fs []Finding
+		if err := json.Unmarshal(b, &fs); err != nil {
+			Fatalf("%s: %v", p, err)
+		}
+	next:
+		for _, f := range fs {
+			for _, g := range r.findings {
+				if g.Property == f.Property && g.Signature == f.Signature {
+					continue next
+				}
+			}
+			r.findings = append(r.findings, f)
 		}
 	}
 	budget := 8 * time.Minute
